@@ -156,6 +156,8 @@ struct TaskSpec {
     urgent: bool,
     panics: bool,
     forget: bool,
+    /// the body does not return before this other task has run (0 = no gate)
+    gate: u64,
 }
 
 #[derive(Clone, Debug)]
@@ -201,6 +203,8 @@ struct Shared {
     drop_done: AtomicBool,
     spawners_quiet: AtomicUsize,
     nspawners: usize,
+    /// ids of the tasks whose body has run
+    ran: std::sync::Mutex<std::collections::HashSet<u64>>,
 }
 
 fn task_body(sh: &Arc<Shared>, t: &TaskSpec) -> impl FnOnce() -> u64 + Send + 'static {
@@ -211,6 +215,12 @@ fn task_body(sh: &Arc<Shared>, t: &TaskSpec) -> impl FnOnce() -> u64 + Send + 's
         let c = observed_cpu(&sh.hw, sh.real);
         let pinned = WORKER.get().map_or(4095, |(p, _)| p);
         log(json!({"ev":"run","t":t.id,"w":w,"c":c,"pinned":pinned}));
+        sh.ran.lock().unwrap().insert(t.id);
+        if t.gate != 0 {
+            // this body needs the other task to have run: its worker stays busy until then
+            let (sh2, g) = (Arc::clone(&sh), t.gate);
+            sched::block_until("gate", move || sh2.ran.lock().unwrap().contains(&g));
+        }
         if t.panics {
             panic!("task-panic {}", t.id);
         }
@@ -281,6 +291,7 @@ fn parse_stimulus(v: &Value) -> Stimulus {
     };
     let urgent: Vec<u64> = v["urgent"].as_array().map(|a| a.iter().map(|x| x.as_u64().unwrap()).collect()).unwrap_or_default();
     let panics: Vec<u64> = v["panics"].as_array().map(|a| a.iter().map(|x| x.as_u64().unwrap()).collect()).unwrap_or_default();
+    let gates = v.get("gates").cloned().unwrap_or(json!({}));
     let spawners = v["spawners"]
         .as_array()
         .unwrap()
@@ -294,7 +305,8 @@ fn parse_stimulus(v: &Value) -> Stimulus {
                 .iter()
                 .map(|t| {
                     let id = t.as_u64().unwrap();
-                    TaskSpec { id, urgent: urgent.contains(&id), panics: panics.contains(&id), forget: false }
+                    TaskSpec { id, urgent: urgent.contains(&id), panics: panics.contains(&id), forget: false,
+                               gate: gates.get(id.to_string()).and_then(Value::as_u64).unwrap_or(0) }
                 })
                 .collect(),
         })
@@ -380,7 +392,8 @@ fn run_scheduled(st: &mut Stimulus, tr: &Tracer) -> RunStats {
     let real = matches!(st.hw, Hw::Real);
     st.nslots = hw.max_processor_count();
     let pool = Pool::builder().hardware(hw.clone()).workers_per_processor(NonZero::new(st.wpp).unwrap()).name(format!("v{}", st.id)).build();
-    let sh = Arc::new(Shared { hw, real, drop_done: AtomicBool::new(false), spawners_quiet: AtomicUsize::new(0), nspawners: st.spawners.len() });
+    let sh = Arc::new(Shared { hw, real, drop_done: AtomicBool::new(false), spawners_quiet: AtomicUsize::new(0), nspawners: st.spawners.len(),
+                                ran: std::sync::Mutex::new(std::collections::HashSet::new()) });
     let strategy = match st.strategy.as_str() {
         "script" => Strategy::Script(translate(st)),
         "pct" => Strategy::Pct { changes: 3 },
@@ -533,18 +546,18 @@ fn free_scenario(idx: u64, seed: u64, max_spawners: u64) {
         let proc = *rng.pick(&cpus);
         let mut tasks = vec![];
         for _ in 0..per {
-            tasks.push(TaskSpec { id: next_task, urgent: rng.chance(1, 3), panics: rng.chance(1, 8), forget: rng.chance(1, 6) });
+            tasks.push(TaskSpec { id: next_task, urgent: rng.chance(1, 3), panics: rng.chance(1, 8), forget: rng.chance(1, 6), gate: 0 });
             next_task += 1;
         }
         specs.push(SpawnerSpec { proc, tasks, late: false });
     }
     if with_late {
         let proc = *rng.pick(&cpus);
-        specs.push(SpawnerSpec { proc, tasks: vec![TaskSpec { id: next_task, urgent: rng.chance(1, 2), panics: false, forget: false }], late: true });
+        specs.push(SpawnerSpec { proc, tasks: vec![TaskSpec { id: next_task, urgent: rng.chance(1, 2), panics: false, forget: false, gate: 0 }], late: true });
         next_task += 1;
     }
     let pool = Pool::builder().hardware(hw.clone()).workers_per_processor(NonZero::new(wpp).unwrap()).name(format!("f{idx}")).build();
-    let sh = Arc::new(Shared { hw, real: true, drop_done: AtomicBool::new(false), spawners_quiet: AtomicUsize::new(0), nspawners: specs.len() });
+    let sh = Arc::new(Shared { hw, real: true, drop_done: AtomicBool::new(false), spawners_quiet: AtomicUsize::new(0), nspawners: specs.len(), ran: std::sync::Mutex::new(std::collections::HashSet::new()) });
     log(json!({"ev":"scenario","id":format!("free-{idx}"),"mode":"free","hw":"real","seed":seed,"early_drop":early,"spawners":specs.len(),
                "wpp":wpp,"tasks":next_task}));
     let nlate = specs.iter().filter(|s| s.late).count();
